@@ -1,7 +1,7 @@
 (* Extraction of the executable model to OCaml (zarith-backed Z). *)
 From Coq Require Import ZArith List.
 From Coq Require Import ExtrOcamlBasic ExtrOcamlZBigInt.
-From PlonkV Require Import Base.Fr Gates.Gate Gates.CS Composer.State Composer.Components Alg.Poly Alg.FFT Protocol.Kzg Protocol.Capacity Protocol.Keccak Protocol.G1 Protocol.RefVerifier Protocol.Blinding Curve.Jubjub Composer.PointComponents.
+From PlonkV Require Import Base.Fr Gates.Gate Gates.CS Composer.State Composer.Components Alg.Poly Alg.FFT Protocol.Kzg Protocol.Capacity Protocol.Keccak Protocol.G1 Protocol.RefVerifier Protocol.Blinding Curve.Jubjub Composer.PointComponents Composer.PointFacts Composer.FixedFacts.
 Extraction Language OCaml.
 Extraction "model.ml"
   r of_Z val fadd fsub fmul fopp finv feqb
@@ -24,4 +24,5 @@ Extraction "model.ml"
   append_point_ext append_public_point_ext append_constant_point_ext assert_equal_point assert_equal_public_point_ext
   component_add_point component_sub_point component_neg_point component_mul_point component_select_identity component_select_point
   assert_torsion_free_point assert_torsion_free_gates component_mul_generator_ext append_fixed_base_signed_digits
+  fb_block doublings canonical_blk torsion_rows var_rows
   ref_verify g1_decompress g1_mul g1_add g1_eqb g1_compress g1_lin wire_opening.
